@@ -105,7 +105,7 @@ class E1:
             self.rep.inconclusive_(self.site, f"assumptions not satisfiable ({q.verdict}) - vacuous harness")
         return q
 
-    def obligation(self, name, pred, extra_hyps=(), timeout_s=None, cases=None, split=False):
+    def obligation(self, name, pred, extra_hyps=(), timeout_s=None, cases=None, split=False, site=None):
         """pred(ins, outs) -> element/SA/list of bools; must hold for all inputs satisfying hyps.
         cases: optional list of (label, hypothesis) - the obligation is proved per case and a
         separate obligation shows the cases are exhaustive.  split: prove each element of an SA
@@ -142,13 +142,13 @@ class E1:
                     self.rep.inconclusive_(full + glab + clab, "solver returned unknown")
                     result = None
                     continue
-                r = self._replay(name, full + glab + clab, pred, h2, g, q)
+                r = self._replay(name, full + glab + clab, pred, h2, g, q, site)
                 if r is False:
                     return False
                 result = None
         return result
 
-    def _replay(self, name, full, pred, hyps, goal, q):
+    def _replay(self, name, full, pred, hyps, goal, q, site=None):
         # sat: polish the model, replay on the real code
         model = self._polish(hyps, goal) or q.model
         try:
@@ -168,10 +168,74 @@ class E1:
             self.rep.inconclusive_(full, f"replay raised {type(e).__name__}: {e}")
             return None
         if ok is False or (isinstance(ok, bool) and not ok):
-            self.rep.violation(f"{self.site}:{name}", f"obligation '{name}' fails on the real code",
+            self.rep.violation(site or f"{self.site}:{name}", f"obligation '{name}' fails on the real code",
                                {"obligation": full, "inputs": js, "paths": self.tr.in_paths})
             return False
         self.rep.inconclusive_(full, "solver model did not reproduce on the real code (encoding gap or float effect)")
+        return None
+
+    # ------------------------------------------------------------------ two-copy
+    def second_copy(self, vary, prefix="B_"):
+        """Inputs of a second run: identical symbols except where vary(ins) (a pytree of bool
+        masks) is True, where fresh symbols are used.  Returns (insB, outsB)."""
+        masks = vary(self.ins)
+        lA, td = jax.tree_util.tree_flatten(self.ins)
+        lM = td.flatten_up_to(masks)
+        lB = []
+        for a, m, v in zip(lA, lM, self.tr.closed.jaxpr.invars):
+            if m is None or not np.any(m):
+                lB.append(a)
+                continue
+            m = np.broadcast_to(np.asarray(m, dtype=bool), a.shape)
+            b = a.copy()
+            k = _kind(v.aval.dtype)
+            for idx in np.ndindex(*a.shape) if a.shape else [()]:
+                if m[idx]:
+                    nm = prefix + str(a[idx])
+                    b[idx] = z3.Real(nm) if k == "float" else (z3.Int(nm) if k == "int" else z3.Bool(nm))
+            lB.append(b)
+        insB = jax.tree_util.tree_unflatten(td, lB)
+        ctxB = Ctx(tag="B_")
+        outsB, ctxB = self.tr.run(insB, ctxB)
+        return insB, outsB, ctxB
+
+    def noninterference(self, name, vary, select, hyps_fn=None, timeout_s=None, site=None):
+        """Outputs select(outs) must not change when the inputs marked by vary change arbitrarily."""
+        insB, outsB, ctxB = self.second_copy(vary)
+        hyps = list(self.hyps) + list(ctxB.assumptions)
+        if hyps_fn is not None:
+            for h in hyps_fn(self.ins, insB):
+                hyps.append(V.to_z3(h.all() if isinstance(h, S.SA) else h))
+        full = f"{self.site}:{name}"
+
+        def pred2(insA, outsA, insB_, outsB_):
+            return S.close(S.SA(select(insA, outsA)), S.SA(select(insB_, outsB_)))
+        goal = pred2(self.ins, self.outs, insB, outsB).all()
+        q = self.sess.prove(full, hyps, goal, timeout_s=timeout_s)
+        if q.verdict == "unsat":
+            return True
+        if q.verdict == "unknown":
+            self.rep.inconclusive_(full, "solver returned unknown")
+            return None
+        try:
+            model = q.model
+            cA, jsA = concretise(self.ins, model, self.example_args)
+            cB, jsB = concretise(insB, model, self.example_args)
+            S.MODE.numeric, S.MODE.tol = True, 1e-4
+            try:
+                ok = pred2(as_obj(cA), as_obj(self.fn(*cA)), as_obj(cB), as_obj(self.fn(*cB))).all()
+            finally:
+                S.MODE.numeric, S.MODE.tol = False, 0.0
+            self.rep.replayed += 1
+        except Exception as e:
+            self.rep.inconclusive_(full, f"replay raised {type(e).__name__}: {e}")
+            return None
+        if ok is False:
+            self.rep.violation(site or f"{self.site}:{name}", f"non-interference '{name}' fails on the real code: two inputs that differ only "
+                               "in data that must not matter give different outputs",
+                               {"obligation": full, "inputs_A": jsA, "inputs_B": jsB, "paths": self.tr.in_paths})
+            return False
+        self.rep.inconclusive_(full, "solver model did not reproduce on the real code")
         return None
 
     def _polish(self, hyps, goal):
